@@ -28,26 +28,25 @@ func isPlainKind(c macaroon.Caveat) bool {
 func (r *Rng) plainCav(depth int) macaroon.Caveat {
 	for {
 		c := r.WireCav(depth)
-		if !isPlainKind(c) {
+		if !isPlainKind(c) || containsAttestation(c) {
 			continue
 		}
-		if u, ok := c.(*macaroon.UnregisteredCaveat); ok {
-			// a holder can only add an unregistered caveat it decoded from somewhere: go through the decoder
-			b, err := encOne(u)
-			if err != nil {
-				continue
-			}
-			cs, err := macaroon.DecodeCaveats(b)
-			if err != nil || len(cs.Caveats) != 1 {
-				continue
-			}
-			if uu, ok := cs.Caveats[0].(*macaroon.UnregisteredCaveat); !ok || len(uu.RawMsgpack) == 0 {
-				continue
-			}
+		// a holder works from bytes: only values that survive a hop unchanged (an unregistered caveat
+		// with a nil body, also inside a wrapper, decodes to something that cannot be re-encoded)
+		b, err := encOne(c)
+		if err != nil {
+			continue
+		}
+		cs, err := macaroon.DecodeCaveats(b)
+		if err != nil || len(cs.Caveats) != 1 {
+			continue
+		}
+		b2, err := cs.MarshalMsgpack()
+		if err != nil || string(b2) != string(b) {
+			continue
+		}
+		if _, ok := c.(*macaroon.UnregisteredCaveat); ok {
 			return cs.Caveats[0]
-		}
-		if containsAttestation(c) {
-			continue
 		}
 		return c
 	}
